@@ -113,7 +113,7 @@ Print Assumptions c06_reference_calls.
    outputs; three flushes of 2 pairs; shuffle j of an example uses seed 5 + j: the reference
    function is called once per pair on one row (third component of each flush) *)
 Example c06_example :
-  let c := CfgE Raw (Some 5%Z) 3 true 0
+  let c := CfgE Raw (Some 5%Z) 3 true 0 1%Z
                 [ExE [[1;0];[0;2]]%Z [] []; ExE [[0;3];[1;1]]%Z [] []] in
   run_enc c (Var [0;1] 2 0)
   = (Ok ([[ [[1020;1440];[1680;1560]]; [[1260;1680];[960;1800]]; [[1500;960];[1200;1080]] ]%Z;
